@@ -375,6 +375,19 @@ def finish(res):
     ctx = res.ctx
     new = []
     known_printed = set()
+    # replay files carry what is needed to look for the same violation again
+    for sig, replay, text in res.violations:
+        try:
+            obj = json.load(open(replay))
+            if isinstance(obj, dict):
+                obj.update({"_property": ctx.pid, "_signature": sig, "_seed": ctx.seed, "_tier": ctx.tier, "_text": text})
+                json.dump(obj, open(replay, "w"), indent=1, sort_keys=True)
+        except Exception:
+            pass
+    want = getattr(ctx, "replay_signature", None)
+    if want is not None:
+        hit = [v for v in res.violations if v[0] == want]
+        log("REPLAY: %s" % ("reproduced: " + hit[0][2] if hit else "not reproduced (signature %s)" % want))
     for sig, replay, text in res.violations:
         k = match_known(ctx.pid, sig)
         if k:
